@@ -283,25 +283,26 @@ Section Results.
   Qed.
 End Results.
 
-(** ** SWITCH POINT.  Base/Vec3.v [rotate] is, by computation, the OLD code.
+(** ** SWITCH POINT (switched after repair 176dbfb).  Base/Vec3.v [rotate] is, by
+    computation, the REPAIRED code.  History: before the repair it was the OLD code;
     After Base/Vec3.v is changed to the repaired middle branch, replace
     [rotate_old] by [rotate_new] in the statement of [rotate_base_eq] (the proof
     stays [reflexivity]), [rotate_old_isometry] by [rotate_new_isometry] in
     [rotate_base_isometry], and use the second proof of [rotate_base_polar]. *)
-Lemma rotate_base_eq (min_acc : R) (d rot : vec3 R) : rotate min_acc d rot = rotate_old min_acc d rot.
+Lemma rotate_base_eq (min_acc : R) (d rot : vec3 R) : rotate min_acc d rot = rotate_new min_acc d rot.
 Proof. reflexivity. Qed.
 
 Lemma rotate_base_isometry min_acc rot : 0 < min_acc -> unit3 rot -> rot_isometry (rotate min_acc) rot.
 Proof.
-  intros Ha Hr. pose proof (rotate_old_isometry min_acc rot Ha Hr) as [H1 H2].
+  intros Ha Hr. pose proof (rotate_new_isometry min_acc rot Ha Hr) as [H1 H2].
   split; intros; rewrite ?rotate_base_eq; auto.
 Qed.
 
 Lemma rotate_base_polar min_acc rot : 0 < min_acc -> unit3 rot -> good_axis min_acc rot ->
   rot_polar (rotate min_acc) rot.
 Proof.
-  intros Ha Hr Hg d Hd. rewrite rotate_base_eq. apply rotate_old_polar; assumption.
-  (* after the switch:  intros Ha Hr _ d Hd. rewrite rotate_base_eq. apply rotate_new_polar; assumption. *)
+  intros Ha Hr _ d Hd. rewrite rotate_base_eq. apply rotate_new_polar; assumption.
+  (* before the repair (176dbfb):  intros Ha Hr Hg d Hd. rewrite rotate_base_eq. apply rotate_old_polar; assumption. *)
 Qed.
 
 (** make_unit_vector of a non-zero vector is unit *)
